@@ -832,6 +832,68 @@ func (env *SpecEnv) call(n SCall) TV {
 		return TV{arg(0).V, types.Universe.Lookup(n.Fun).Type()}
 	case "sameRef":
 		return TV{S("(= %s %s)", env.refOf(arg(0)), env.refOf(arg(1))), boolT}
+	case "lastarg":
+		// lastarg("substr", k): the k-th argument (receiver = 0) of the latest logged call to a callee whose name contains
+		// substr. Only defined where that call is on the path (guard with callseq / icalls); no such call: failed clause.
+		lit, ok := n.Args[0].(SStr)
+		ki, ok2 := SInt{}, false
+		if len(n.Args) > 1 {
+			ki, ok2 = n.Args[1].(SInt)
+		}
+		if !ok || !ok2 {
+			env.fail("lastarg(\"f\", k): a string literal and an integer literal")
+		}
+		k := 0
+		fmt.Sscanf(ki.V, "%d", &k)
+		if env.foreign {
+			// the callee's own call log is not known to the caller: an unknown value of the argument's type
+			var at types.Type
+			if env.calleeFn != nil {
+				for _, b := range env.calleeFn.Blocks {
+					for _, ins := range b.Instrs {
+						ci, ok := ins.(ssa.CallInstruction)
+						if !ok || at != nil || !strings.Contains(callLogName(ci.Common()), lit.V) {
+							continue
+						}
+						cc := ci.Common()
+						var ts []types.Type
+						if cc.IsInvoke() {
+							ts = append(ts, cc.Value.Type())
+						} else if cc.Signature().Recv() != nil {
+							ts = append(ts, cc.Signature().Recv().Type())
+						}
+						for i := 0; i < cc.Signature().Params().Len(); i++ {
+							ts = append(ts, cc.Signature().Params().At(i).Type())
+						}
+						if k < len(ts) {
+							at = ts[k]
+						}
+					}
+				}
+			}
+			if at == nil {
+				env.fail("lastarg(%q, %d) inside a callee contract applied at a call site: argument type unknown", lit.V, k)
+			}
+			return TV{e.symbolic(env.cur, at, "lastarg"), at}
+		}
+		st := env.cur
+		last := -1
+		for i := range st.calls {
+			if strings.Contains(st.calls[i], lit.V) {
+				last = i
+			}
+		}
+		for _, cl := range st.cutLoops {
+			for _, nm := range cl.Names {
+				if strings.Contains(nm, lit.V) && cl.Pos > last {
+					last = -1 // the latest such call may lie in an iteration that is not on this path
+				}
+			}
+		}
+		if last < 0 || k >= len(st.callRes[last].Args) || st.callRes[last].ArgT == nil {
+			panic(noSuchCall{fmt.Sprintf("lastarg(%q, %d): no such call on this path", lit.V, k)})
+		}
+		return TV{st.callRes[last].Args[k], st.callRes[last].ArgT[k]}
 	case "ncalls", "icalls", "callseq", "lastresult":
 		// The call log of the function under verification (its own call sites, in path order).
 		//   ncalls("substr")     how many calls to callees whose name contains substr happened so far
@@ -885,15 +947,11 @@ func (env *SpecEnv) call(n SCall) TV {
 			return unknownInt(0, false)
 		}
 		st := env.cur
-		from := 0
-		enclosing := map[*ssa.BasicBlock]bool{}
+		from, fromCut := 0, 0
 		if n.Fun == "icalls" && e.curBlock != nil {
 			for h, m := range st.iterMark {
-				if e.inLoopBlocks(h, e.curBlock) {
-					enclosing[h] = true
-					if m > from {
-						from = m
-					}
+				if e.inLoopBlocks(h, e.curBlock) && m.Cuts >= fromCut {
+					from, fromCut = m.Pos, m.Cuts
 				}
 			}
 		}
@@ -905,9 +963,9 @@ func (env *SpecEnv) call(n SCall) TV {
 			}
 		}
 		hidden, hiddenAfterLast := false, false
-		for _, cl := range st.cutLoops {
-			if cl.Pos < from || enclosing[cl.Head] {
-				continue
+		for ci, cl := range st.cutLoops {
+			if ci < fromCut {
+				continue // cut before the pass under execution started (the enclosing loops themselves included)
 			}
 			for _, nm := range cl.Names {
 				if strings.Contains(nm, lit.V) {
